@@ -226,6 +226,16 @@ pub fn run_path_case(ctx: &Ctx, rep: &mut Report, rng: &mut Rng, n: u64) {
     let replay = || J::obj().set("scenario", "path-round-trip").set("cdda", cdda).set("cfg", cfg.to_json()).set("front", format!("{front:?}")).set("recipe", recipe.to_json());
     let Ok(opts) = make_options(&cfg) else { return };
     let opts = opts.overwrite();
+    // half of the cases overwrite an existing, much longer file (an earlier run's output): nothing
+    // of it may survive behind the new stream
+    let stale = rng.chance(1, 2);
+    if stale {
+        let old: Vec<u8> = (0..(pcm.len() * 5 + 70_000)).map(|i| b"fLaC-stale-"[i % 11]).collect();
+        if std::fs::write(&path, &old).is_err() {
+            return;
+        }
+    }
+    rep.count("path_target", if stale { "existing longer file (overwrite)" } else { "new file" });
     let ch = cfg.channels as usize;
     let total_frames = (pcm.len() / ch) as u64;
     let written = mon::guard(|| -> Result<(), String> {
@@ -265,6 +275,19 @@ pub fn run_path_case(ctx: &Ctx, rep: &mut Report, rng: &mut Rng, n: u64) {
             return;
         }
         Ok(Ok(())) => {}
+    }
+    // the file on disk is exactly one conforming stream (independent strict validator: nothing
+    // may follow the last frame) carrying the PCM that was written
+    match std::fs::read(&path) {
+        Ok(bytes) => match decode_file(&bytes, &Rules::STRICT) {
+            Ok(d) => {
+                if d.interleaved() != pcm {
+                    rep.violation("mismatch", "path-file:pcm-mismatch", format!("the file written through the path-based constructor holds different PCM: {}", first_diff(&d.interleaved(), &pcm)), replay());
+                }
+            }
+            Err(r) => rep.violation("nonconforming", format!("path-file:refdec:{}", r.rule), format!("file written through create/create_cdda (over {}): {r}", if stale { "an existing longer file" } else { "a new path" }), replay()),
+        },
+        Err(e) => rep.notes.push(format!("path scenario: cannot read the file back: {e}")),
     }
     // read back through every path-based reader
     let read = mon::guard(|| -> Result<(), String> {
@@ -467,16 +490,15 @@ pub fn run(ctx: &Ctx, rep: &mut Report, judge: Judge) {
         for _ in 0..40 {
             run_stream_history(rep, &mut rng);
         }
-    } else {
-        for n in 0..6 {
-            run_path_case(ctx, rep, &mut rng, n);
-        }
+    }
+    for n in 0..6 {
+        run_path_case(ctx, rep, &mut rng, n);
     }
     while ctx.time_left() {
         if judge == Judge::Reference && rng.chance(1, 8) {
             run_stream_history(rep, &mut rng);
         }
-        if judge == Judge::CrateDecoders && rng.chance(1, 40) {
+        if rng.chance(1, 40) {
             let n = 1000 + rng.below(1 << 30);
             run_path_case(ctx, rep, &mut rng, n);
         }
